@@ -20,9 +20,12 @@ import (
 	"strings"
 
 	"github.com/apache/arrow-go/v18/arrow"
+	"github.com/apache/arrow-go/v18/arrow/array"
+	"github.com/apache/arrow-go/v18/arrow/memory"
 
 	"github.com/Query-farm/vgi-rpc-go/vgirpc"
 
+	"verif/harness/internal/gen"
 	"verif/harness/internal/mon"
 	"verif/harness/internal/wd"
 )
@@ -110,6 +113,50 @@ func (doneProducer) Produce(_ context.Context, out *vgirpc.OutputCollector, _ *v
 
 var outSchema = arrow.NewSchema([]arrow.Field{{Name: "n", Type: arrow.PrimitiveTypes.Int64}}, nil)
 
+// echoExchange answers every input batch with a one-row batch.
+type echoExchange struct{}
+
+func oneRow(v int64) arrow.RecordBatch {
+	b := array.NewInt64Builder(memory.NewGoAllocator())
+	b.Append(v)
+	a := b.NewArray()
+	defer a.Release()
+	return array.NewRecordBatch(outSchema, []arrow.Array{a}, 1)
+}
+
+func (echoExchange) Exchange(_ context.Context, _ arrow.RecordBatch, out *vgirpc.OutputCollector, _ *vgirpc.CallContext) error {
+	return out.Emit(oneRow(7))
+}
+
+type streamHeader struct {
+	V int64 `arrow:"v"`
+}
+
+func (streamHeader) ArrowSchema() *arrow.Schema {
+	return arrow.NewSchema([]arrow.Field{{Name: "v", Type: arrow.PrimitiveTypes.Int64}}, nil)
+}
+
+var headerSchema = streamHeader{}.ArrowSchema()
+
+// streamKind describes one stream-shaped method of the server under observation.
+type streamKind struct {
+	method   string
+	kind     string // class / signature name
+	exchange bool   // client sends data batches (else ticks)
+	header   bool   // admitted call answers with a header stream first
+}
+
+var streamKinds = []streamKind{
+	{"p", "producer", false, false},
+	{"ph", "producer-header", false, true},
+	{"x", "exchange", true, false},
+	{"xh", "exchange-header", true, true},
+	{"dp", "dynamic-producer", false, true},
+	{"dx", "dynamic-exchange", true, true},
+}
+
+const numMethods = 8 // u, fu + six stream kinds
+
 type sut struct {
 	version string
 	set     bool
@@ -135,12 +182,43 @@ func newSUT(version string) *sut {
 		s.entered["u"]++
 		return 42, nil
 	})
-	vgirpc.Producer(s.srv, "p", outSchema, func(_ context.Context, _ *vgirpc.CallContext, _ emptyParams) (*vgirpc.StreamResult, error) {
-		s.entered["p"]++
-		return &vgirpc.StreamResult{OutputSchema: outSchema, State: doneProducer{}}, nil
+	vgirpc.Unary(s.srv, "fu", func(_ context.Context, _ *vgirpc.CallContext, _ emptyParams) (int64, error) {
+		s.entered["fu"]++
+		return 43, nil
 	})
+	handler := func(method string, exchange, header bool) func(context.Context, *vgirpc.CallContext, emptyParams) (*vgirpc.StreamResult, error) {
+		return func(context.Context, *vgirpc.CallContext, emptyParams) (*vgirpc.StreamResult, error) {
+			s.entered[method]++
+			res := &vgirpc.StreamResult{OutputSchema: outSchema, State: doneProducer{}}
+			if exchange {
+				res.State = echoExchange{}
+				res.InputSchema = outSchema
+			}
+			if header {
+				res.Header = streamHeader{V: 5}
+			}
+			return res, nil
+		}
+	}
+	vgirpc.Producer(s.srv, "p", outSchema, handler("p", false, false))
+	vgirpc.ProducerWithHeader(s.srv, "ph", outSchema, headerSchema, handler("ph", false, true))
+	vgirpc.Exchange(s.srv, "x", outSchema, outSchema, handler("x", true, false))
+	vgirpc.ExchangeWithHeader(s.srv, "xh", outSchema, outSchema, headerSchema, handler("xh", true, true))
+	vgirpc.DynamicStreamWithHeader(s.srv, "dp", headerSchema, handler("dp", false, true))
+	vgirpc.DynamicStreamWithHeader(s.srv, "dx", headerSchema, handler("dx", true, true))
 	s.http = vgirpc.NewHttpServer(s.srv)
 	return s
+}
+
+// inputStream is what a real client writes after a stream request: one tick
+// (producer) or one data batch (exchange), then end-of-stream.
+func inputStream(k streamKind) []byte {
+	if !k.exchange {
+		return wd.TickStream(1)
+	}
+	rec := oneRow(1)
+	defer rec.Release()
+	return gen.IPCBytes(outSchema, rec)
 }
 
 // ---------------------------------------------------------------------------
@@ -296,7 +374,7 @@ func genClient(rng *rand.Rand, sv semver, set bool) clientCase {
 // ---------------------------------------------------------------------------
 // Routes
 
-var routes = []string{"pipe-unary", "pipe-stream", "http-unary", "http-init", "pipe-describe", "http-describe"}
+var routes = []string{"pipe-unary", "pipe-stream", "pipe-stream", "http-unary", "http-init", "pipe-describe", "http-describe"}
 
 type observation struct {
 	Entered   bool   `json:"handler_entered"`
@@ -307,9 +385,39 @@ type observation struct {
 	Decoded   bool   `json:"decoded"`
 	Detail    string `json:"detail,omitempty"`
 	Describe  bool   `json:"describe_rows_seen,omitempty"`
+	Kind      string `json:"stream_kind,omitempty"`
+	FollowUp  string `json:"follow_up,omitempty"` // "unary" | "describe" (pipe routes)
+	FollowOK  bool   `json:"follow_up_served"`    // pipe routes: the next call on the same connection was answered correctly
+	FollowWhy string `json:"follow_up_detail,omitempty"`
+	Streams   int    `json:"response_streams"`
 }
 
-func (s *sut) run(route string, c clientCase) observation {
+// followUp builds the second request of a pipe session. It always carries an
+// admissible declaration (the server's own version), so it must be served.
+func (s *sut) followUp(which string) []byte {
+	var extra []wd.KV
+	if s.set {
+		extra = append(extra, wd.KV{K: "vgi_rpc.protocol_version", V: s.version})
+	}
+	if which == "describe" {
+		return wd.EmptyRequest("__describe__") // exempt: no declaration at all
+	}
+	return wd.EmptyRequest("fu", extra...)
+}
+
+func isDescribeAnswer(st wd.Stream) bool {
+	if st.Schema == nil || len(st.Batches) != 1 || st.Batches[0].IsErr || st.Batches[0].Rows != numMethods {
+		return false
+	}
+	for _, f := range st.Schema.Fields() {
+		if f.Name == "method_type" {
+			return true
+		}
+	}
+	return false
+}
+
+func (s *sut) run(route string, c clientCase, rng *rand.Rand, admitExpected bool) observation {
 	var extra []wd.KV
 	if c.present {
 		extra = append(extra, wd.KV{K: "vgi_rpc.protocol_version", V: c.value})
@@ -318,24 +426,34 @@ func (s *sut) run(route string, c clientCase) observation {
 	var obs observation
 	method := ""
 	before := 0
+	pipe := strings.HasPrefix(route, "pipe-")
+	expectStreams := 1 // streams the probe itself must produce when the gate behaves as the reference says
+	var in []byte
 	switch route {
 	case "pipe-unary":
 		method = "u"
-		before = s.entered[method]
-		body = wd.Pipe(s.srv, wd.EmptyRequest("u", extra...))
+		obs.Kind = "unary"
+		in = wd.EmptyRequest("u", extra...)
 	case "pipe-stream":
-		method = "p"
-		before = s.entered[method]
-		in := append(wd.EmptyRequest("p", extra...), wd.TickStream(1)...)
-		body = wd.Pipe(s.srv, in)
+		k := streamKinds[rng.IntN(len(streamKinds))]
+		method = k.method
+		obs.Kind = k.kind
+		in = append(wd.EmptyRequest(k.method, extra...), inputStream(k)...)
+		if admitExpected && k.header {
+			expectStreams = 2
+		}
 	case "pipe-describe":
-		body = wd.Pipe(s.srv, wd.EmptyRequest("__describe__", extra...))
+		obs.Kind = "describe"
+		in = wd.EmptyRequest("__describe__", extra...)
 	case "http-unary", "http-init", "http-describe":
 		path := "/u"
 		reqMethod := "u"
 		switch route {
 		case "http-init":
-			path, reqMethod = "/p/init", "p"
+			// producer-shaped kinds finish within /init (no continuation token involved)
+			k := []streamKind{streamKinds[0], streamKinds[1], streamKinds[4]}[rng.IntN(3)]
+			path, reqMethod = "/"+k.method+"/init", k.method
+			obs.Kind = k.kind
 		case "http-describe":
 			path, reqMethod = "/__describe__", "__describe__"
 		}
@@ -348,6 +466,15 @@ func (s *sut) run(route string, c clientCase) observation {
 		obs.Status = rec.Code
 		body = rec.Body.Bytes()
 	}
+	fuBefore := s.entered["fu"]
+	if pipe {
+		if method != "" {
+			before = s.entered[method]
+		}
+		obs.FollowUp = []string{"unary", "describe"}[rng.IntN(2)]
+		in = append(in, s.followUp(obs.FollowUp)...)
+		body = wd.Pipe(s.srv, in)
+	}
 	if method != "" {
 		obs.Entered = s.entered[method] > before
 	}
@@ -357,18 +484,43 @@ func (s *sut) run(route string, c clientCase) observation {
 		obs.Detail = "response not decodable: " + err.Error()
 		return obs
 	}
-	obs.Decoded = len(sts) > 0
-	if eb, ok := wd.FirstError(sts); ok {
+	obs.Streams = len(sts)
+	probe := sts
+	if pipe {
+		// the last stream answers the follow-up call; everything before it answers the probe
+		switch {
+		case len(sts) != expectStreams+1:
+			obs.FollowWhy = fmt.Sprintf("%d response streams on the connection, expected %d for the probe + 1 for the follow-up", len(sts), expectStreams)
+		case obs.FollowUp == "describe":
+			obs.FollowOK = isDescribeAnswer(sts[len(sts)-1])
+			if !obs.FollowOK {
+				obs.FollowWhy = "last stream is not the describe answer"
+			}
+		default:
+			last := sts[len(sts)-1]
+			obs.FollowOK = s.entered["fu"] == fuBefore+1 && len(last.Batches) > 0 && !last.Batches[len(last.Batches)-1].IsErr
+			if !obs.FollowOK {
+				obs.FollowWhy = "follow-up unary call was not dispatched / answered with an error"
+				if eb, ok := wd.FirstError([]wd.Stream{last}); ok {
+					obs.FollowWhy += ": " + eb.Meta["vgi_rpc.log_message"]
+				}
+			}
+		}
+		if len(sts) > 0 {
+			probe = sts[:len(sts)-1]
+		}
+		if len(probe) > expectStreams {
+			probe = probe[:expectStreams]
+		}
+	}
+	obs.Decoded = len(probe) > 0
+	if eb, ok := wd.FirstError(probe); ok {
 		obs.HasError = true
 		obs.ErrorKind = eb.Meta["vgi_rpc.error_kind"]
 		obs.Message = eb.Meta["vgi_rpc.log_message"]
 	}
-	if strings.HasSuffix(route, "describe") && len(sts) > 0 && sts[0].Schema != nil {
-		for _, f := range sts[0].Schema.Fields() {
-			if f.Name == "method_type" {
-				obs.Describe = len(sts[0].Batches) > 0 && sts[0].Batches[0].Rows == 2
-			}
-		}
+	if strings.HasSuffix(route, "describe") && len(probe) > 0 {
+		obs.Describe = isDescribeAnswer(probe[0])
 	}
 	return obs
 }
@@ -411,6 +563,10 @@ func main() {
 	r.Require("admit:same-major-minor", "refuse:absent", "refuse:malformed", "refuse:client-older", "refuse:client-newer",
 		"admit:no-server-version", "describe-exempt:mismatch", "class:huge-major", "class:saturating-major", "class:wrap64-major",
 		"class:unicode-digits", "class:prerelease", "class:leading-zero-major", "class:whitespace-trailing",
+		"followup:refused:dynamic-producer", "followup:refused:dynamic-exchange", "followup:refused:producer", "followup:refused:exchange",
+		"followup:refused:producer-header", "followup:refused:exchange-header", "followup:refused:unary",
+		"followup:admitted:dynamic-producer", "followup:admitted:dynamic-exchange", "followup:admitted:exchange", "followup:admitted:describe",
+		"followup-call:unary", "followup-call:describe",
 		"route:pipe-unary", "route:pipe-stream", "route:http-unary", "route:http-init", "route:pipe-describe", "route:http-describe")
 
 	suts := make([]*sut, 0, len(serverVersions)+1)
@@ -432,7 +588,7 @@ func main() {
 		route := routes[rng.IntN(len(routes))]
 		// the four dispatch routes get 5/6 of the budget, describe 1/6 by the uniform draw above
 		exp := reference(s.set, s.parsed, c.value, c.present)
-		obs := s.run(route, c)
+		obs := s.run(route, c, rng, exp.admit)
 		r.Case(fmt.Sprintf("%s|%q|%v|%s", s.version, c.value, c.present, route))
 		r.Class("route:" + route)
 		r.Class("class:" + c.class)
@@ -449,6 +605,24 @@ func main() {
 		if overflowsInt64(s, c) {
 			sigClass = "int64-overflow"
 			r.Class("class:int64-overflow-compared")
+		}
+		// Pipe routes: whatever the gate decided, the connection must stay in frame — the next
+		// call on it (always an admissible one, or __describe__) has to be served.
+		if strings.HasPrefix(route, "pipe-") {
+			verdictName := "refused"
+			if exp.admit || route == "pipe-describe" {
+				verdictName = "admitted"
+			}
+			r.Class("followup:" + verdictName + ":" + obs.Kind)
+			r.Class("followup-call:" + obs.FollowUp)
+			if !obs.FollowOK {
+				w := witness{s.version, s.set, c.value, c.present, c.class, route, "the follow-up " + obs.FollowUp + " call on the same connection is served", obs}
+				r.Violation("gate:"+route+":"+obs.Kind+":follow-up-not-served",
+					"after a "+verdictName+" call the next call on the same pipe connection (admissible / __describe__) was not answered correctly: "+obs.FollowWhy, w)
+			}
+		}
+		if obs.Kind != "" {
+			r.Class("kind:" + obs.Kind)
 		}
 		isDescribe := strings.HasSuffix(route, "describe")
 		if isDescribe {
@@ -510,6 +684,10 @@ func main() {
 	}
 	r.Set("server_versions", len(serverVersions)+1)
 	for _, s := range append(suts, none) {
-		r.Count("events.handler_entered", int64(s.entered["u"]+s.entered["p"]))
+		n := 0
+		for _, v := range s.entered {
+			n += v
+		}
+		r.Count("events.handler_entered", int64(n))
 	}
 }
